@@ -142,9 +142,18 @@ def r01b(ctx):
     from_seq_p, to_seq_p = ip[3], ip[4]
     # -- trimming
     pre = suf = None
-    loops = [n for n in walk_no_nested(init.node) if isinstance(n, ast.For) and isinstance(n.iter, ast.Call) and call_name(n.iter) == "zip"]
+    def zip_of(it):
+        """(zip call, islice bound or None) for `zip(...)` / `islice(zip(...), K)`."""
+        if isinstance(it, ast.Call) and call_name(it) == "zip":
+            return it, None
+        if isinstance(it, ast.Call) and (call_name(it) or "").rsplit(".", 1)[-1] == "islice" and len(it.args) == 2 \
+                and isinstance(it.args[0], ast.Call) and call_name(it.args[0]) == "zip":
+            return it.args[0], it.args[1]
+        return None, None
+    loops = [n for n in walk_no_nested(init.node) if isinstance(n, ast.For) and zip_of(n.iter)[0] is not None]
     n_ob = 0
     for lp in loops:
+        zc, bound = zip_of(lp.iter)
         appends = [c for c in ast.walk(lp) if isinstance(c, ast.Call) and isinstance(c.func, ast.Attribute)
                    and c.func.attr == "append" and self_attr(c.func.value)]
         if not appends:
@@ -155,7 +164,7 @@ def r01b(ctx):
         facts = [(ast.unparse(t), pol) for t, pol in flatten_conditions(dominating_conditions(a))]
         guarded = len(tv) == 2 and any(pol and t.replace(" ", "") in (f"{tv[0]}=={tv[1]}", f"{tv[1]}=={tv[0]}") for t, pol in facts)
         stops = any(isinstance(s, ast.Break) for s in ast.walk(lp))
-        rev = all(isinstance(x, ast.Call) and call_name(x) == "reversed" for x in lp.iter.args)
+        rev = all(isinstance(x, ast.Call) and call_name(x) == "reversed" for x in zc.args)
         n_ob += 1
         if guarded and stops:
             ctx.proved("R01b", f, "EditDistance.__init__", lp, f"trim {lst}",
@@ -166,8 +175,39 @@ def r01b(ctx):
                           f"first unequal pair): trimmed elements are later reported as zero-cost matches")
         if rev:
             suf = lst
+            suf_loop = (lp, zc, bound)
         else:
             pre = lst
+            if bound is not None:
+                ctx.violation("R01b", f, "EditDistance.__init__", lp, f"trim {lst} bounded",
+                              f"the shared-prefix scan is cut off by `{norm(bound, 40)}`")
+    if pre and suf:
+        # the suffix scan must stay clear of the prefix on BOTH sides, otherwise an element is trimmed twice
+        lp, zc, bound = suf_loop
+        n_ob += 1
+        srcs = []
+        clear = True
+        for x in zc.args:
+            inner = x.args[0] if x.args else None
+            if isinstance(inner, ast.Subscript) and isinstance(inner.slice, ast.Slice) and inner.slice.upper is None \
+                    and inner.slice.lower is not None and ast.unparse(inner.slice.lower).replace(" ", "") == f"len(self.{pre})":
+                srcs.append(dotted(inner.value))
+            else:
+                srcs.append(dotted(inner))
+                clear = False
+        if not clear and bound is not None:
+            b = ast.unparse(bound).replace(" ", "")
+            fs, ts = from_seq_p, to_seq_p
+            clear = b in (f"min(len({fs}),len({ts}))-len(self.{pre})", f"min(len({ts}),len({fs}))-len(self.{pre})")
+        if clear and sorted(srcs) == sorted([from_seq_p, to_seq_p]):
+            ctx.proved("R01b", f, "EditDistance.__init__", lp, "suffix scan clear of the prefix",
+                       f"the suffix scan covers only what follows the shared prefix in both sequences")
+        else:
+            ctx.violation("R01b", f, "EditDistance.__init__", lp, "suffix scan clear of the prefix",
+                          f"the shared-suffix scan `{norm(lp.iter, 90)}` is not confined to the part of BOTH sequences after the "
+                          f"shared prefix: when the shorter sequence is a prefix-and-suffix of the longer one (one element "
+                          f"dropped from a run of equal neighbours) the suffix overlaps the prefix, an element is trimmed "
+                          f"twice and the remaining difference is lost (both documents render as identical)")
     if not pre or not suf:
         raise Inconclusive("EditDistance.__init__: prefix/suffix trimming loops not recognised")
     for attr, src in (("from_seq", from_seq_p), ("to_seq", to_seq_p)):
